@@ -57,7 +57,20 @@ func (env *SpecEnv) applyUF(uf *UFDecl, args []*SExpr) (Val, error) {
 	if len(terms) == 0 {
 		return Val{T: T, S: name}, nil
 	}
-	return Val{T: T, S: app(name, terms...)}, nil
+	t := app(name, terms...)
+	if (uf.HasRange || uf.Len >= 0) && !reBound.MatchString(t) {
+		e.once("ufattr:"+t, func() {
+			if uf.HasRange {
+				if w, _, ok := intInfo(T); ok {
+					e.assume(mkAnd(app("bvsle", bvLitI(w, uf.Lo), t), app("bvsle", t, bvLitI(w, uf.Hi))))
+				}
+			}
+			if uf.Len >= 0 {
+				e.assume(mkEq(app("slen", t), bvLitI(64, uf.Len)))
+			}
+		})
+	}
+	return Val{T: T, S: t}, nil
 }
 
 func joinSp(s []string) string {
